@@ -13,6 +13,7 @@ IMPORTS = "From QE Require Import Base.Pivot C04.Model C04.Proofs C04.ProofsMM2 
 PREAMBLE = """
 Definition opts : @PivOptions Q := {| fea_tol := lp_FEA_TOL; tol_piv := lp_TOL_PIV; tol_ratio_diff := lp_TOL_RATIO_DIFF |}.
 Definition optsF : @PivOptions float := {| fea_tol := lp_FEA_TOL_f; tol_piv := lp_TOL_PIV_f; tol_ratio_diff := lp_TOL_RATIO_DIFF_f |}.
+Definition optsF0 : @PivOptions float := {| fea_tol := 0%float; tol_piv := 0%float; tol_ratio_diff := 0%float |}.
 Definition tolc : Q := (1 # 1000000000).
 Definition LPQ : Type := (list Q * nat * nat * list (list Q) * list Q * list (list Q) * list Q * nat * (list Q * list Q * Q * bool * nat * nat))%type.
 (* strict: the exact-arithmetic run follows the same path as the float run *)
@@ -31,6 +32,10 @@ Definition LPF : Type := (list float * nat * nat * list (list float) * list floa
 Definition lp_okF (c : LPF) : bool :=
   let '(cv, m, k, Aub, bub, Aeq, beq, mi, (x, lam, fn, su, st, ni)) := c in
   let '(x', lam', fn', su', st', ni') := linprog_simplex cv m k Aub bub Aeq beq mi optsF in
+  Bool.eqb su su' && Nat.eqb st st' && Nat.eqb ni ni' && Fs_eqb x' x && Fs_eqb lam' lam && PrimFloat.eqb fn' fn.
+Definition lp_okF0 (c : LPF) : bool :=
+  let '(cv, m, k, Aub, bub, Aeq, beq, mi, (x, lam, fn, su, st, ni)) := c in
+  let '(x', lam', fn', su', st', ni') := linprog_simplex cv m k Aub bub Aeq beq mi optsF0 in
   Bool.eqb su su' && Nat.eqb st st' && Nat.eqb ni ni' && Fs_eqb x' x && Fs_eqb lam' lam && PrimFloat.eqb fn' fn.
 Definition MMQ : Type := (nat * nat * list (list Q) * nat * (Q * list Q * list Q))%type.
 Definition mm_ok (o : @PivOptions Q) (c : MMQ) : bool :=
@@ -423,6 +428,272 @@ def gen_games(rng, thorough):
     return games
 
 
+
+# ---------------------------------------------------------------- hardening streams (dress / optional arguments / aliasing / scaling)
+ARRAY_DRESS = ["int64", "int32", "float32", "F-order", "view-stride2", "view-rows-of-larger", "list", "tuple"]
+
+
+def dress_array(a, kind):
+    """the same integer-valued data in another dtype / memory layout / container"""
+    a = np.asarray(a, dtype=float)
+    if kind in ("int64", "int32", "float32"):
+        return a.astype(getattr(np, kind))
+    if kind == "F-order":
+        return np.asfortranarray(a)
+    if kind == "view-stride2":
+        big = np.full(tuple(2 * d for d in a.shape), 7.0)
+        v = big[tuple(slice(None, None, 2) for _ in a.shape)]
+        v[...] = a
+        return v
+    if kind == "view-rows-of-larger":
+        big = np.full(tuple(d + 2 for d in a.shape), 7.0)
+        v = big[tuple(slice(1, 1 + d) for d in a.shape)]
+        v[...] = a
+        return v
+    if kind == "list":
+        return a.tolist()
+    if kind == "tuple":
+        return tuple(map(tuple, a.tolist())) if a.ndim == 2 else tuple(a.tolist())
+    raise ValueError(kind)
+
+
+def is_typing_rejection(e):
+    """numba refuses the argument types at dispatch (documented types are float ndarrays): a rejection, not a result"""
+    return (type(e).__name__ in ("TypingError", "TypeError", "NumbaTypeError", "UnsupportedError")
+            or (isinstance(e, ValueError) and "fingerprint" in str(e)))        # numba cannot type an empty list
+
+
+def lp_arrays(lp):
+    n = len(lp["c"])
+    f = lambda rows, r: np.array([[float(v) for v in row] for row in rows], dtype=float).reshape(r, n)
+    return dict(c=np.array([float(v) for v in lp["c"]]), A_ub=f(lp["A_ub"], len(lp["A_ub"])), b_ub=np.array([float(v) for v in lp["b_ub"]], dtype=float),
+                A_eq=f(lp["A_eq"], len(lp["A_eq"])), b_eq=np.array([float(v) for v in lp["b_eq"]], dtype=float))
+
+
+def lp_out(r):
+    return ([float(v) for v in r.x], [float(v) for v in r.lambd], float(r.fun), bool(r.success), int(r.status), int(r.num_iter))
+
+
+def same_lp_out(a, b):
+    return a[2:] == b[2:] and (b[2] == -math.inf or (a[0] == b[0] and a[1] == b[1]))
+
+
+def lp_hardening(ctx, lps, outs, thorough):
+    """classes 1, 3, 4, 5, 6 of the hardening audit for linprog_simplex; canonical result = outs[i] (already compared with the models)."""
+    from quantecon.optimize import linprog_simplex
+    from quantecon.optimize.linprog_simplex import PivOptions, FEA_TOL, TOL_PIV, TOL_RATIO_DIFF
+    rng = ctx.rng
+    pool = [i for i, lp in enumerate(lps) if "buf" not in lp and lp["max_iter"] == 1000 and lp["tag"].startswith("random")
+            and all(Fraction(v).denominator == 1 for v in lp["c"] + lp["b_ub"] + lp["b_eq"] + [a for r in lp["A_ub"] + lp["A_eq"] for a in r])]
+    per = 6 if thorough else 2
+    zero_cases = []
+
+    def call(i, what, label, **kw):
+        """one dressed call; compares with the canonical result, checks non-mutation and aliasing"""
+        lp = lps[i]
+        args = lp_arrays(lp)
+        args.update(what)
+        snap = {k: (np.array(v, copy=True) if isinstance(v, np.ndarray) else v) for k, v in args.items()}
+        ctx.count(label)
+        ctx.case(("lp-hardening", label, i), nontrivial=False)
+        try:
+            r = linprog_simplex(args["c"], A_ub=args["A_ub"], b_ub=args["b_ub"], A_eq=args["A_eq"], b_eq=args["b_eq"],
+                                **dict(dict(max_iter=1000), **kw))
+        except Exception as e:
+            if is_typing_rejection(e):
+                ctx.count(label + ":rejected(TypingError)")
+                return None
+            ctx.fail("lp_exception", "linprog_simplex raised %s on a valid input (%s)" % (repr(e)[:200], label), dict(lp_input(lp), dress=label), repr(e)[:200], None)
+            return None
+        out = lp_out(r)
+        for k, v in args.items():
+            if isinstance(v, np.ndarray):
+                if not (v.dtype == snap[k].dtype and np.array_equal(v, snap[k])):
+                    ctx.fail("lp_mutates_argument", "linprog_simplex changed its argument %s (%s)" % (k, label), dict(lp_input(lp), dress=label), out, None)
+                if np.shares_memory(r.x, v) or np.shares_memory(r.lambd, v):
+                    ctx.fail("lp_result_aliases_argument", "result arrays share memory with argument %s (%s)" % (k, label), dict(lp_input(lp), dress=label), out, None)
+        return out, r
+
+    def expect_same(i, res, label, ref=None):
+        if res is None:
+            return
+        out, _ = res
+        ref = outs[i] if ref is None else ref
+        if not same_lp_out(out, ref):
+            ctx.fail("lp_dress_changes_result", "result differs from the canonical float64 call (%s): %r" % (label, ref),
+                     dict(lp_input(lps[i]), dress=label), dict(zip(("x", "lambd", "fun", "success", "status", "num_iter"), out)), None)
+            return
+        for kind, what in lp_oracle(lps[i], out):
+            ctx.fail(kind, what + " (%s)" % label, dict(lp_input(lps[i]), dress=label), out, None)
+
+    # 1. dtype / layout / container of every array argument (all together, and one argument at a time)
+    for kind in ARRAY_DRESS:
+        for i in rng.sample(pool, per):
+            a = lp_arrays(lps[i])
+            expect_same(i, call(i, {k: dress_array(v, kind) for k, v in a.items()}, "dress:all-arrays:" + kind), "all arrays " + kind)
+        # one argument at a time: every (argument, kind) pair in the thorough tier, two random arguments per kind in the quick
+        # tier (each pair is a separate numba specialisation to compile)
+        for arg in (("c", "A_ub", "b_ub", "A_eq", "b_eq") if thorough else rng.sample(["c", "A_ub", "b_ub", "A_eq", "b_eq"], 1)):
+            i = rng.choice(pool)
+            expect_same(i, call(i, {arg: dress_array(lp_arrays(lps[i])[arg], kind)}, "dress:%s:%s" % (arg, kind)), "%s %s" % (arg, kind))
+    # 1./4. max_iter forms (canonical: Python int 1000)
+    forms = [("python-int", 1000), ("np.int64", np.int64(1000)), ("np.int32", np.int32(1000)), ("np.intp", np.intp(1000))]
+    if thorough:
+        forms += [("np.uint16", np.uint16(1000)), ("np.int16", np.int16(1000))]
+    for name, mi in forms:
+        for i in rng.sample(pool, per):
+            expect_same(i, call(i, {}, "max_iter:" + name, max_iter=mi), "max_iter " + name)
+    # 4. max_iter omitted (default 10**6 >> needed) and the falsy-but-valid 0
+    for i in rng.sample(pool, per):
+        lp = lps[i]
+        a = lp_arrays(lp)
+        ctx.count("max_iter:omitted")
+        r = linprog_simplex(a["c"], A_ub=a["A_ub"], b_ub=a["b_ub"], A_eq=a["A_eq"], b_eq=a["b_eq"])
+        expect_same(i, (lp_out(r), r), "max_iter omitted")
+        res = call(i, {}, "max_iter:0(falsy)", max_iter=0)
+        if res is not None and not (res[0][4] == 1 and res[0][3] is False and res[0][5] == 0):
+            ctx.fail("lp_max_iter_zero", "max_iter=0 must give status 1 without any iteration", dict(lp_input(lp), max_iter=0), res[0], None)
+    # 4. piv_options omitted vs explicit default vs explicit values vs exact tolerances 0
+    for i in rng.sample(pool, 3 * per):
+        expect_same(i, call(i, {}, "piv_options:PivOptions()", piv_options=PivOptions()), "piv_options=PivOptions()")
+        expect_same(i, call(i, {}, "piv_options:explicit-values", piv_options=PivOptions(FEA_TOL, TOL_PIV, TOL_RATIO_DIFF)), "explicit tolerances")
+        res = call(i, {}, "piv_options:zeros(0.0)", piv_options=PivOptions(0.0, 0.0, 0.0))
+        if res is not None:
+            zero_cases.append((lps[i], res[0]))
+    # 3. successive results without buffers do not alias each other
+    i, j = rng.sample(pool, 2)
+    r1, r2 = call(i, {}, "alias:successive-results"), call(j, {}, "alias:successive-results")
+    if r1 and r2 and (np.shares_memory(r1[1].x, r2[1].x) or np.shares_memory(r1[1].lambd, r2[1].lambd)):
+        ctx.fail("lp_results_alias", "results of two successive calls share memory", lp_input(lps[i]), None, None)
+    # 4./5. exact tolerances crossed with near-ties of the ratio test at 1e-9 .. 1e-8 (duplicated row, one copy perturbed)
+    near = []
+    for _ in range(12 if thorough else 4):
+        i = rng.choice([p for p in pool if len(lps[p]["A_ub"]) >= 1 and len(lps[p]["A_ub"]) + len(lps[p]["A_eq"]) <= 4])
+        lp = dict(lps[i])
+        eps = frac(rng.choice([1e-9, 3e-9, 1e-8]))
+        lp["A_ub"] = lp["A_ub"] + [list(lp["A_ub"][0])]
+        lp["b_ub"] = lp["b_ub"] + [lp["b_ub"][0] + rng.choice([eps, -eps])]
+        lp["tag"] = "near-tie(1e-9..1e-8)"
+        near.append(lp)
+    for lp in near:
+        a = lp_arrays(lp)
+        for label, po in (("near-tie:default-tolerances", PivOptions()), ("near-tie:zero-tolerances", PivOptions(0.0, 0.0, 0.0))):
+            ctx.count(label)
+            ctx.case(("lp-hardening", label, tuple(lp["b_ub"])), nontrivial=True)
+            try:
+                out = lp_out(linprog_simplex(a["c"], A_ub=a["A_ub"], b_ub=a["b_ub"], A_eq=a["A_eq"], b_eq=a["b_eq"], max_iter=1000, piv_options=po))
+            except Exception as e:
+                ctx.fail("lp_exception", "linprog_simplex raised %s (%s)" % (repr(e)[:200], label), lp_input(lp), repr(e)[:200], None)
+                continue
+            # a quantity inside (0, tol] (and exact tolerances on inexact data) is outside the quantifier: model correspondence only
+            (zero_cases if "zero" in label else near_default).append((lp, out))
+    return zero_cases
+
+
+near_default = []
+
+
+def lp_scaled_stream(ctx, thorough):
+    """oracle-only: the same small-integer LPs with badly (but still well within the quantifier's resolution) scaled data"""
+    rng = ctx.rng
+    for t in range(120 if thorough else 24):
+        lp = gen_lp(rng)
+        if any(Fraction(v).denominator != 1 for v in lp["c"]):
+            continue
+        fam = ["c*1e6", "rows*1e3", "b*1e6", "c/8", "all*1e3"][t % 5]         # exact scalings only
+        s6, s3, sm1 = Fraction(10**6), Fraction(10**3), Fraction(1, 8)
+        if fam == "c*1e6":
+            lp["c"] = [v * s6 for v in lp["c"]]
+        elif fam == "c/8":
+            lp["c"] = [frac(float(v * sm1)) for v in lp["c"]]
+        elif fam == "b*1e6":
+            lp["b_ub"] = [v * s6 for v in lp["b_ub"]]
+            lp["b_eq"] = [v * s6 for v in lp["b_eq"]]
+        else:
+            for A, b in ((lp["A_ub"], lp["b_ub"]), (lp["A_eq"], lp["b_eq"])):
+                for i in range(len(A)):
+                    sc = s3 if fam == "all*1e3" or rng.random() < 0.5 else Fraction(1)
+                    A[i] = [v * sc for v in A[i]]
+                    b[i] = b[i] * sc
+            if fam == "all*1e3":
+                lp["c"] = [v * s3 for v in lp["c"]]
+        lp["max_iter"] = 1000
+        lp["tag"] = "scaled:" + fam
+        ctx.count("lp_scaled:" + fam)
+        ctx.case(("lp-scaled", fam, tuple(lp["c"]), tuple(map(tuple, lp["A_ub"])), tuple(lp["b_ub"])), nontrivial=True)
+        try:
+            out = run_lp(lp)
+        except Exception as e:
+            ctx.fail("lp_exception", "linprog_simplex raised %s on a valid (scaled) input" % repr(e)[:200], lp_input(lp), repr(e)[:200], None)
+            continue
+        for kind, what in lp_oracle(lp, out):
+            ctx.fail(kind, what, lp_input(lp), dict(zip(("x", "lambd", "fun", "success", "status", "num_iter"), out)), None)
+
+
+def mm_hardening(ctx, games, thorough):
+    """dress / optional arguments / non-mutation / scaling for minmax"""
+    from quantecon.optimize import minmax
+    from quantecon.optimize.linprog_simplex import PivOptions, FEA_TOL, TOL_PIV, TOL_RATIO_DIFF
+    rng = ctx.rng
+    pool = [A for A, tag in games if tag.startswith("int") and len(A) >= 2 and len(A[0]) >= 2]
+    per = 5 if thorough else 2
+
+    def call(A, arg, label, **kw):
+        ctx.count(label)
+        ctx.case(("mm-hardening", label, tuple(map(tuple, A))), nontrivial=False)
+        snap = np.array(arg, copy=True) if isinstance(arg, np.ndarray) else None
+        try:
+            v, x, y = minmax(arg, **kw)
+        except Exception as e:
+            if is_typing_rejection(e):
+                ctx.count(label + ":rejected(TypingError)")
+                return None
+            ctx.fail("minmax_exception", "minmax raised %s on a valid payoff matrix (%s)" % (repr(e)[:200], label), {"A": A, "dress": label}, repr(e)[:200], None)
+            return None
+        if snap is not None and not (arg.dtype == snap.dtype and np.array_equal(arg, snap)):
+            ctx.fail("minmax_mutates_argument", "minmax changed its argument (%s)" % label, {"A": A, "dress": label}, None, None)
+        if isinstance(arg, np.ndarray) and (np.shares_memory(x, arg) or np.shares_memory(y, arg)):
+            ctx.fail("minmax_result_aliases_argument", "x or y share memory with A (%s)" % label, {"A": A, "dress": label}, None, None)
+        return float(v), [float(t) for t in x], [float(t) for t in y]
+
+    def expect_same(A, out, label):
+        if out is None:
+            return
+        ref = run_minmax(A, 1000)
+        if out != ref:
+            ctx.fail("minmax_dress_changes_result", "result differs from the canonical float64 call (%s): %r" % (label, ref), {"A": A, "dress": label},
+                     dict(zip(("v", "x", "y"), out)), None)
+        for kind, what in minmax_oracle(A, out, TOL):
+            ctx.fail(kind, what + " (%s)" % label, {"A": A, "dress": label}, dict(zip(("v", "x", "y"), out)), None)
+
+    for kind in ARRAY_DRESS:
+        for A in rng.sample(pool, per):
+            expect_same(A, call(A, dress_array(A, kind), "minmax_dress:" + kind, max_iter=1000), kind)
+    for name, mi in [("python-int", 1000), ("np.int64", np.int64(1000)), ("np.int32", np.int32(1000)), ("np.intp", np.intp(1000))]:
+        for A in rng.sample(pool, per):
+            expect_same(A, call(A, np.array(A, dtype=float), "minmax_max_iter:" + name, max_iter=mi), "max_iter " + name)
+    for A in rng.sample(pool, per):
+        a = np.array(A, dtype=float)
+        expect_same(A, call(A, a, "minmax_max_iter:omitted"), "max_iter omitted")
+        expect_same(A, call(A, a, "minmax_piv_options:PivOptions()", max_iter=1000, piv_options=PivOptions()), "PivOptions()")
+        expect_same(A, call(A, a, "minmax_piv_options:explicit-values", max_iter=1000, piv_options=PivOptions(FEA_TOL, TOL_PIV, TOL_RATIO_DIFF)), "explicit")
+        out = call(A, a, "minmax_piv_options:zeros(0.0)", max_iter=1000, piv_options=PivOptions(0.0, 0.0, 0.0))
+        if out is not None:             # integer data: exact ties only, tolerance 0 must still give a saddle point
+            for kind, what in minmax_oracle(A, out, TOL):
+                ctx.fail(kind, what + " (tolerances 0)", {"A": A, "dress": "tolerances 0"}, dict(zip(("v", "x", "y"), out)), None)
+        call(A, a, "minmax_max_iter:0(falsy, no exception)", max_iter=0)
+    # oracle-only: scaled payoffs
+    for t in range(60 if thorough else 15):
+        A = rng.choice(pool)
+        fam = ["A*1e6", "A*1e3", "A/8"][t % 3]
+        sc = {"A*1e6": Fraction(10**6), "A*1e3": Fraction(10**3), "A/8": Fraction(1, 8)}[fam]
+        B = [[frac(float(a * sc)) for a in r] for r in A]
+        out = call(B, np.array([[float(a) for a in r] for r in B]), "minmax_scaled:" + fam, max_iter=1000)
+        if out is not None:
+            for kind, what in minmax_oracle(B, out, Fraction(1, 10**6)):
+                ctx.fail(kind, what + " (%s)" % fam, {"A": B, "tag": "real:scaled " + fam}, dict(zip(("v", "x", "y"), out)), None)
+
+
 # ---------------------------------------------------------------- run
 def warmup():
     """compile / load the jitted entry points once; the numba cache directory is shared with concurrently running
@@ -463,7 +734,13 @@ def run(ctx):
                 ctx.fail("lp_buffers", what, dict(lp_input(lp), buffers=lp["buf"][1], position_in_sequence=lp["buf"][2]),
                          dict(zip(("x", "lambd", "fun", "success", "status", "num_iter"), out)), None)
         else:
-            out = run_lp(lp, pass_empty_shapes=(idx % 2 == 0))
+            try:
+                out = run_lp(lp, pass_empty_shapes=(idx % 2 == 0))
+            except OSError:
+                raise
+            except Exception as e:      # any exception on a valid LP is a violation with that input, never a harness crash
+                ctx.fail("lp_exception", "linprog_simplex raised %s on a valid LP" % repr(e)[:200], lp_input(lp), repr(e)[:200], None)
+                out = ([], [], -math.inf, False, 1, 0)
         outs.append(out)
         x, lambd, fun, su, st, ni = out
         n, m, k = len(lp["c"]), len(lp["A_ub"]), len(lp["A_eq"])
@@ -497,6 +774,16 @@ def run(ctx):
     for i in badF:
         ctx.mismatch("C04.Model.linprog_simplex (binary64 instance) vs optimize.linprog_simplex: status, num_iter, x, lambd, fun bit-exact",
                      lp_input(lps[i]), dict(zip(("x", "lambd", "fun", "success", "status", "num_iter"), outs[i])), lp_model(i, "optsF"))
+    # (1b) hardening streams: dress, optional arguments, aliasing, near-ties with exact tolerances, scaled data
+    del near_default[:]
+    zero_cases = lp_hardening(ctx, lps, outs, thorough)
+    lp_scaled_stream(ctx, thorough)
+    for nm, okf, cs in (("linprog_simplex_float_bitexact:tolerances-0(piv_options zeros, near-ties)", "lp_okF0", zero_cases),
+                        ("linprog_simplex_float_bitexact:near-ties", "lp_okF", near_default)):
+        badz = ctx.coq_check(nm, IMPORTS, "LPF", okf, [coq_lp(lp, out, fl=True) for lp, out in cs], chunk=20, preamble=PREAMBLE)
+        for i in badz:
+            ctx.mismatch("C04.Model.linprog_simplex (binary64 instance) vs optimize.linprog_simplex: " + nm, lp_input(cs[i][0]),
+                         dict(zip(("x", "lambd", "fun", "success", "status", "num_iter"), cs[i][1])), "")
     # (2) exact arithmetic (the instance the theorems are about), source tolerances: same path -> everything within 1e-9;
     #     a different path (a tie of the largest-coefficient rule decided by rounding) must still give the same status and optimum
     bad = ctx.coq_check("linprog_simplex_exactQ", IMPORTS, "LPQ", "lp_ok opts", cases, chunk=40, preamble=PREAMBLE)
@@ -568,6 +855,7 @@ def run(ctx):
         ctx.mismatch("C04.Model.minmax (binary64 instance) vs optimize.minmax: v, x, y bit-exact", {"A": A, "tag": tag},
                      dict(zip(("v", "x", "y"), out)), model[:1500])
     # exact rationals of 53-bit floats on 8x8 tableaux are expensive: small chunks spread the few heavy cases over the cores
+    mm_hardening(ctx, games, thorough)
     # (raw binary64 data above 5x5 is left to the bit-exact binary64 model + oracle: one such game costs ~40 s in exact Q)
     heavy = lambda i: (meta[i][1].startswith("real:") and meta[i][1] not in ("real:dyadic-positive<1",)
                        and any(frac(a).denominator > 1024 for r in meta[i][0] for a in r)
